@@ -22,7 +22,7 @@ _OPEN_CLASS = [
     ("STRING", "p'p'"), ("STRING", "pr'q'"), ("STRING", "''"),
     ("FSTRING_START", "f'"), ("FSTRING_START", "pf'"), ("FSTRING_MIDDLE", "m"), ("FSTRING_END", "'"),
     ("SEARCH_PATH", "`x`"), ("SEARCH_PATH", "g`y`"), ("SEARCH_PATH", "@foo`z`"),
-    ("ERRORTOKEN", "€"), ("ERRORTOKEN", "\xa0"),
+    ("ERRORTOKEN", "€"),
 ]
 PY_XONSH_ONLY_OPS = {"!", "$", "?", "??", "||", "&&", "@(", "!(", "![", "$(", "$[", "${", "@$(", ">&"}
 
